@@ -975,7 +975,7 @@ func (f *fnTrans) callMods(c *ssa.CallCommon) []string {
 				if g, ok := f.w.Fns[n]; ok {
 					var hs []string
 					for _, h := range f.w.ModsetOf(g) {
-						if h != "G$rdfailed" {
+						if !reentryExempt[h] {
 							hs = append(hs, h)
 						}
 					}
@@ -1015,6 +1015,9 @@ func (f *fnTrans) callMods(c *ssa.CallCommon) []string {
 			}
 		}
 		if !inPkg {
+			for _, h := range f.w.ifaceSliceArgHeaps(name, c) {
+				set[h] = true
+			}
 			for _, a := range c.Args {
 				if isFnTyped(a) {
 					f.fnValEffects(a, set)
@@ -2048,7 +2051,7 @@ func (f *fnTrans) fnValEffects(v ssa.Value, set map[string]bool) {
 		for _, n := range reentryAPI {
 			if g, ok := f.w.Fns[n]; ok {
 				for h := range f.w.modsets[g] {
-					if h != "G$rdfailed" {
+					if !reentryExempt[h] {
 						set[h] = true
 					}
 				}
